@@ -537,11 +537,15 @@ pub fn run(ctx: &Ctx, rep: &mut Report, replay: Option<&serde_json::Value>) {
         }
         return;
     }
-    run_prop(ctx, rep, "sequence", ctx.tier.pick(12_000, 400_000), prop::collection::vec(anyrec_strategy(3_000), 1..=4), |c, i| judge_sequence(c, i));
+    // how often the URI generators had to fall back (must stay rare)
+    let sample = sample_strategy(&(rsync_uri_strategy(300), https_uri_strategy(20)), ctx.seed_for("uri-sample"), 2000);
+    let fb = sample.iter().filter(|(r, h)| r.contains("fallback.example") || h.contains("fallback.example")).count();
+    rep.extra.insert("uri_generator_fallbacks_per_2000".into(), serde_json::json!(fb));
+    run_prop(ctx, rep, "sequence", ctx.tier.pick(30_000, 400_000), prop::collection::vec(anyrec_strategy(3_000), 1..=4), |c, i| judge_sequence(c, i));
     run_prop(ctx, rep, "big", ctx.tier.pick(300, 6_000), prop::collection::vec(anyrec_strategy(70_000), 1..=3), |c, i| judge_sequence(c, i));
     let point_strategy = (header_strategy(), manifest_strategy(3_000), prop::collection::vec(object_strategy(3_000), 0..6), any::<bool>()).prop_map(|(header, manifest, objects, via_update)| MPoint { header, manifest, objects, via_update });
-    run_prop(ctx, rep, "point", ctx.tier.pick(3_000, 60_000), point_strategy, point);
-    run_prop(ctx, rep, "bytes", ctx.tier.pick(10_000, 300_000), mutated_valid_strategy(), |d, i| judge_bytes(&d.0, i));
+    run_prop(ctx, rep, "point", ctx.tier.pick(5_000, 60_000), point_strategy, point);
+    run_prop(ctx, rep, "bytes", ctx.tier.pick(20_000, 300_000), mutated_valid_strategy(), |d, i| judge_bytes(&d.0, i));
     crate::fz::replay_corpus(ctx, rep, "rt_records", |d, i| judge_bytes(d, i));
     if ctx.tier == Tier::Thorough {
         crate::fz::campaign(ctx, rep, "rt_records", 3_000_000, 4096, |d, i| judge_bytes(d, i));
